@@ -393,7 +393,7 @@ class Engine(object):
         if sv.cls == "list":
             return self.heap_array(st, "$len")[r] > 0 if st is not None else u.fresh_bool("t")
         if sv.cls in ("dict", "set"):
-            return self.heap_array(st, "$len")[r] > 0 if st is not None else u.fresh_bool("t")
+            return self.heap_array(st, "$dlen")[r] > 0 if st is not None else u.fresh_bool("t")
         if sv.cls is not None and sv.cls not in self.dunder_truthy:
             subs = self.src.subclasses(sv.cls) if sv.cls in self.src.classes or sv.cls in self.src.virtual else []
             if not any(s in self.dunder_truthy for s in subs):
@@ -401,12 +401,14 @@ class Engine(object):
         # class unknown or defines __len__/__bool__
         if sv.cls is None and st is not None:
             t = u.typeof(r)
-            cont = z3.Or([t == u.class_id(c) for c in ("list", "dict", "set")])
+            cont = t == u.class_id("list")
+            isdict = z3.Or([t == u.class_id(c) for c in ("dict", "set")])
             istup = t == u.class_id("tuple")
             plain = z3.And([t != u.class_id(c) for c in sorted(self.dunder_truthy)] or [z3.BoolVal(True)])
             opaque = u.uf("obj_truthy", u.Int, u.Bool)(r)
             return z3.If(istup, self.tuple_len_f()(r) > 0,
-                         z3.If(cont, self.heap_array(st, "$len")[r] > 0, z3.If(plain, True, opaque)))
+                         z3.If(cont, self.heap_array(st, "$len")[r] > 0,
+                               z3.If(isdict, self.heap_array(st, "$dlen")[r] > 0, z3.If(plain, True, opaque))))
         return u.uf("obj_truthy", u.Int, u.Bool)(r)
 
     def _fold_cases(self, sv, f, sort):
@@ -486,7 +488,7 @@ class Engine(object):
     def initial_heap_array(self, field):
         u = self.u
         sort = {"$len": u.LenSort, "$at": u.AtSort, "$has": u.HasSort, "$val": u.DValSort,
-                "$keys": u.FieldSort}.get(field, u.FieldSort)
+                "$dlen": u.LenSort, "$klen": u.LenSort, "$kat": u.AtSort}.get(field, u.FieldSort)
         arr = z3.Const("H0_%s" % field.replace("$", "_"), sort)
         if field not in self._closed:
             # the entry heap is closed: whatever it stores was allocated before entry
@@ -501,8 +503,11 @@ class Engine(object):
             elif field == "$val":
                 v = arr[r][x]
                 self.global_axioms.append(z3.ForAll([r, x], z3.Implies(u.is_R(v), u.r(v) < a0), patterns=[arr[r][x]]))
-            elif field in ("$len", "$has"):
+            elif field in ("$len", "$has", "$dlen", "$klen"):
                 pass
+            elif field == "$kat":
+                v = arr[r][k]
+                self.global_axioms.append(z3.ForAll([r, k], z3.Implies(u.is_R(v), u.r(v) < a0), patterns=[arr[r][k]]))
             else:
                 v = arr[r]
                 self.global_axioms.append(z3.ForAll([r], z3.Implies(u.is_R(v), u.r(v) < a0), patterns=[arr[r]]))
@@ -588,6 +593,8 @@ class Engine(object):
     def seq_len(self, st, seq):
         if seq.cls == "tuple":
             return self.tuple_len_f()(self.as_ref(seq))
+        if seq.cls == "dictkeys":
+            return self.heap_array(st, "$klen")[self.as_ref(seq)]
         return self.heap_array(st, "$len")[self.as_ref(seq)]
 
     def seq_elems(self, st, seq):
@@ -596,6 +603,9 @@ class Engine(object):
         if seq.cls == "tuple":
             f = self.tuple_item_f()
             return lambda k: f(r, k)
+        if seq.cls == "dictkeys":
+            karr = self.heap_array(st, "$kat")[r]
+            return lambda k: karr[k]
         arr = self.heap_array(st, "$at")[r]
         return lambda k: arr[k]
 
